@@ -126,7 +126,8 @@ func entryRef(vo *VerifyOptions, pk, msg, sig []byte) refEntry {
 // Histories of n additions (each through AddWithOptions, with or without forced non-expansion) then Verify:
 // per-entry results, the overall flag and the batch-only shortcut.
 //
-//verif:ob prop=C09 name=BatchVerifier_Verify mode=bv tags=purego use=gapi split=n:1..2;force:0..1;ns:64+63 tsplit=n:1..3;force:0..1;ns:64+63+0
+//verif:ob prop=C09 name=BatchVerifier_Verify mode=bv tags=purego use=gapi split=n:1;force:0..1;ns:64+63 tsplit=n:1..2;force:0..1;ns:64+63+0
+//verif:ob prop=C09 name=BatchVerifier_Verify_2_unexpanded mode=bv tags=purego use=gapi split=n:2;force:1;ns:64+63 tier=quickonly
 func vh_C09_batch() {
 	n, force, ns0 := verif.Case("n"), verif.Case("force"), verif.Case("ns")
 	v := NewBatchVerifier()
